@@ -16,6 +16,7 @@ import (
 	_ "verif/sim/worlds/brk"
 	_ "verif/sim/worlds/cli"
 	_ "verif/sim/worlds/conn"
+	_ "verif/sim/worlds/e2e"
 	_ "verif/sim/worlds/lib"
 )
 
